@@ -183,23 +183,10 @@ func (a *UDPAssociation) ReadLoop() {
 			continue
 		}
 
-		// Update actual client address on first datagram
-		a.mu.Lock()
-		if a.ActualClientAddr == nil {
-			a.ActualClientAddr = clientAddr
-		}
-		a.mu.Unlock()
-
-		// Verify client address if expected address was specified
-		a.mu.RLock()
-		expected := a.ExpectedClientAddr
-		a.mu.RUnlock()
-
-		if expected != nil && expected.IP != nil && !expected.IP.IsUnspecified() {
-			if !clientAddr.IP.Equal(expected.IP) {
-				// Ignore datagrams from unexpected addresses
-				continue
-			}
+		// Only the client that owns the association may use the relay socket
+		if !a.acceptSender(clientAddr) {
+			// Ignore datagrams from unexpected addresses
+			continue
 		}
 
 		// Parse SOCKS5 UDP header
@@ -221,6 +208,42 @@ func (a *UDPAssociation) ReadLoop() {
 			handler.RelayUDPDatagram(streamID, destAddr, header.Port, header.AddrType, header.RawAddr, payload)
 		}
 	}
+}
+
+// acceptSender reports whether a datagram from src belongs to the client that
+// owns this association. The owner is identified by the address given in the
+// UDP ASSOCIATE request or, if the client did not specify one, by the IP of the
+// TCP control connection. The first accepted sender is recorded as the actual
+// client address (the destination of replies); after that only datagrams from
+// exactly that address are accepted.
+func (a *UDPAssociation) acceptSender(src *net.UDPAddr) bool {
+	if src == nil {
+		return false
+	}
+
+	a.mu.Lock()
+	defer a.mu.Unlock()
+
+	if actual := a.ActualClientAddr; actual != nil {
+		return src.Port == actual.Port && src.IP.Equal(actual.IP)
+	}
+
+	expected := a.ExpectedClientAddr
+	if expected != nil && expected.IP != nil && !expected.IP.IsUnspecified() {
+		if !src.IP.Equal(expected.IP) {
+			return false
+		}
+		if expected.Port != 0 && src.Port != expected.Port {
+			return false
+		}
+	} else if a.TCPConn != nil {
+		if peer, ok := a.TCPConn.RemoteAddr().(*net.TCPAddr); ok && !src.IP.Equal(peer.IP) {
+			return false
+		}
+	}
+
+	a.ActualClientAddr = src
+	return true
 }
 
 // WriteToClient sends a datagram back to the SOCKS5 client.
